@@ -391,13 +391,23 @@ def wit(m, body):
   return PRELUDE + f'spec = {src(m)}\n' + body
 
 
+REJECTIONS = (ValueError, TypeError)
+_last_error = [None]
+
+
 def raises(fn):
-  """(raised?, text).  Any exception counts as a rejection."""
+  """(raised?, text).  The documented rejection is ValueError (TypeError for
+  wrongly typed values is tolerated); any other exception type (IndexError,
+  AssertionError, ...) is remembered in _last_error as a crash."""
+  _last_error[0] = None
   try:
     fn()
     return False, ''
-  except Exception as e:  # pylint: disable=broad-except
+  except REJECTIONS as e:
     return True, f'{type(e).__name__}: {e}'[:200]
+  except Exception as e:  # pylint: disable=broad-except
+    _last_error[0] = f'{type(e).__name__}: {e}'[:200]
+    return True, _last_error[0]
 
 
 # =============================================================================
@@ -754,7 +764,7 @@ def _multi_class(m):
 def drv_space_size(tier, seed):
   """space_size == number of members, over an exhaustive family of specs."""
   if tier == 'quick':
-    w_all, w_rand, nmax, budget = 3, 5, 3, 160
+    w_all, w_rand, nmax, budget = 3, 5, 3, 60
   else:
     w_all, w_rand, nmax, budget = 4, 5, 4, 1500
   rec = Recorder(PROP, 'space_size equals the brute-force member count',
@@ -888,6 +898,26 @@ def drv_iteration(tier, seed):
                      m, 'assert all(d.spec is not None for d in spec.iter_dna())'))
       idx = list(range(n)) if n <= 6 else sorted(set(
           [0, n - 1, n - 2] + r.sample(range(n), 3)))
+      # iteration resumed after a given (unbound) member, exclusive
+      if n >= 2:
+        i = r.randrange(n - 1)
+        try:
+          tail = [shape(d) for d in itertools.islice(
+              spec.iter_dna(mk(mem[i])), n + 2)]
+          tail2 = [shape(d) for d in itertools.islice(
+              mk(mem[i]).use_spec(spec).iter_dna(), n + 2)]
+          ok = ([tkey(x) for x in tail] == [tkey(x) for x in mem[i + 1:]]
+                and [tkey(x) for x in tail2] == [tkey(x) for x in mem[i + 1:]])
+          msg = (f'iter_dna({mem[i]!r}) gave {[flat(x) for x in tail]!r} / '
+                 f'{[flat(x) for x in tail2]!r}, want '
+                 f'{[flat(x) for x in mem[i + 1:]]!r}')
+        except Exception as e:  # pylint: disable=broad-except
+          ok, msg = False, f'iter_dna({mem[i]!r}) raised {type(e).__name__}: {e}'
+        rec.case(f'iter/resume-after/{cls}', (src(m), i), ok, msg, wit(
+            m, f'want = {[flat(x) for x in mem[i + 1:]]!r}\n'
+            f'got = [d.to_numbers() for d in spec.iter_dna({dsrc(mem[i])})]\n'
+            f'got2 = [d.to_numbers() for d in {dsrc(mem[i])}.use_spec(spec).iter_dna()]\n'
+            'assert got == want and got2 == want, (got, got2)'))
     else:
       idx = sorted(set([0, 1, n - 1, n - 2] + r.sample(range(n), 8)
                        + _boundary_indices(mem, 6, r)))
@@ -976,7 +1006,8 @@ def _check_accept(rec, m, spec, api, kind, tree):
     api = 'bind'
     if m == C:
       # `spec=` with a constant root space is a separate input class: one id.
-      ok = (bound is not None and bound.spec is not None) if want else rej
+      ok = (bound is not None and bound.spec is not None) if want else (
+          rej and not _last_error[0])
       rec.case('bind-ctor[constant-root-space]/spec-honoured',
                (src(m), actual), ok,
                f'DNA({actual!r}, spec=<constant space>): '
@@ -986,16 +1017,19 @@ def _check_accept(rec, m, spec, api, kind, tree):
                        'try:\n  ' + call + '\nexcept Exception: pass\n'
                        'else: raise AssertionError("non-member accepted")')))
       return
-  ok = (rej != want)
+  crash = _last_error[0]
+  ok = (rej != want) and not crash
   if want:
     cid = f'{api}/accept-member/{kind if kind == "member" else "edited"}'
     w = wit(m, f'{call}   # member: must be accepted')
     msg = f'member {actual!r} rejected: {text}'
   else:
     cid = f'{api}/reject/{reason}'
-    w = wit(m, 'try:\n  ' + call + '\nexcept Exception: pass\n'
+    w = wit(m, 'try:\n  ' + call + '\nexcept (ValueError, TypeError): pass\n'
             f'else: raise AssertionError("non-member accepted ({reason})")')
-    msg = f'non-member {actual!r} accepted ({reason}; edit: {kind})'
+    msg = (f'non-member {actual!r} accepted ({reason}; edit: {kind})'
+           if not crash else f'non-member {actual!r} ({reason}; edit: {kind}) '
+           f'is not rejected with ValueError but crashes: {crash}')
   rec.case(cid, (src(m), actual), ok, msg, w)
   if want and not rej and bound is not None:
     rec.case(f'{api}/spec-attached', (src(m), actual), bound.spec is not None,
@@ -1019,6 +1053,19 @@ def drv_membership(tier, seed):
   import time
   t0 = time.time()
   budget_s = 38 if tier == 'quick' else 540
+  # fixed probes first, so that the kept witness of an id is the plainest one
+  for m, t, kind in [
+      (SP(leaf(2)), (-1, ()), 'value-negative'),
+      (SP(leaf(3, 2, False, False)), (None, ((0, ()), (-1, ()))), 'value-negative'),
+      (SP(leaf(2, 2, True, False)), (0, ((0, ()), (1, ()))), 'value-on-container'),
+      (SP(leaf(2), leaf(2)), (1, ((0, ()), (0, ()))), 'value-on-container'),
+      (SP(FL(0.0, 1.0)), (0.5, ((0, ()),)), 'child-under-leaf'),
+      (SP(leaf(2)), (2, ()), 'value-large'),
+      (SP(leaf(2)), (0, ((0, ()),)), 'child-under-leaf'),
+  ]:
+    spec = build(m)
+    for api in ('validate', 'bind', 'bind-ctor'):
+      _check_accept(rec, m, spec, api, kind, t)
   specs = _membership_specs(tier, r)
   per_spec_members = 6 if tier == 'quick' else 14
   per_spec_corrupt = 26 if tier == 'quick' else 70
@@ -1049,6 +1096,40 @@ def drv_membership(tier, seed):
     for j, (kind, c) in enumerate(chosen[:per_spec_corrupt]):
       _check_accept(rec, m, spec, 'validate', kind, c)
       _check_accept(rec, m, spec, 'bind' if j % 3 else 'bind-ctor', kind, c)
+    # from_numbers: flat decisions bind exactly when they spell a member
+    flats = {}
+    for t in mem:
+      flats[tuple((type(v).__name__, v) for v in flat(t))] = t
+    probes = []
+    for t in base[:2]:
+      f = flat(t)
+      probes.append(('member', f))
+      for i, v in enumerate(f):
+        if _is_int(v):
+          for kind, nv in (('negative-index', -1), ('index-plus1', v + 1),
+                           ('index-too-large', nmax), ('number-wrong-type', 'x')):
+            probes.append((kind, f[:i] + [nv] + f[i + 1:]))
+      probes.append(('too-short', f[:-1]))
+      probes.append(('too-long', f + [0]))
+    for kind, f in probes[:10 if tier == 'quick' else 30]:
+      want_t = flats.get(tuple((type(v).__name__, v) for v in f))
+      box = []
+      rej, text = raises(lambda: box.append(pg.DNA.from_numbers(list(f), spec)))
+      crash = _last_error[0]
+      if want_t is not None:
+        ok = not rej and tkey(shape(box[0])) == tkey(want_t)
+        rec.case('from_numbers/accept-member', (src(m), tuple(f)), ok,
+                 f'from_numbers({f!r}) ' + (f'raised {text}' if rej else
+                                            f'= {shape(box[0])!r}, want {want_t!r}'),
+                 wit(m, f'assert D.from_numbers({f!r}, spec) == {dsrc(want_t)}'))
+      else:
+        rec.case(f'from_numbers/reject/{kind}', (src(m), tuple(f)),
+                 rej and not crash,
+                 f'from_numbers({f!r}) ' + (f'crashes: {crash}' if crash else
+                                            f'accepted: {shape(box[0]) if box else None!r}'),
+                 wit(m, f'try:\n  D.from_numbers({f!r}, spec)\n'
+                     'except (ValueError, TypeError): pass\n'
+                     'else: raise AssertionError("numbers of a non-member accepted")'))
   # all small trees against tiny specs
   tiny = [SP(leaf(2)), SP(leaf(2, 2, True, False)), SP(leaf(2), leaf(2)),
           SP(ONE([C, S2])), SP(leaf(2, 2, False, True))]
